@@ -18,13 +18,18 @@ CHECKS = {
  "C03": ("model_checking",
          "TLC check of Rpc.tla with a lossy index (absent key aliases any stored key) incl. negative configuration; absent and hash-aliasing keys (found with the index's own hash) requested from the real server; TLC trace judge (Trace_Rpc.tla)",
          "The model shows that with the slot / signature comparison no absent key is answered with another object for any alias relation (and that without it TLC finds the wrong-object reply); on the real server every skipped slot, keys of unloaded epochs, random signatures and absent slots / signatures whose 24-bit in-bucket hash equals a stored one are requested with 1..3 epochs loaded over JSON-RPC and gRPC; TLC judges that each answer is not-found / unavailable.",
-         "sig-exists (64-bit) treated as exact; the address-history clause (getSignaturesForAddress) is exercised by the C07 pipeline.",
+         "sig-exists (64-bit) treated as exact; aliasing addresses are searched on an epoch with 4 000 distinct addresses (the pubkey index has 100 buckets).",
          "DESIGN.md section 7, C03", "rpc"),
  "C10": ("model_checking",
          "TLC exhaustive check of code-shaped EpochLoad.tla (chain of kind / epoch / root checks) which also enumerates every configuration as a replay case; real NewEpochFromConfig over fixture files; TLC trace judge (Trace_EpochLoad.tla)",
          "Every assignment of index files with <= 2 deviating roles (own file of another epoch / another CAR / wrong --epoch with the same root / another role's file) x config epoch x own-or-foreign CAR (32 296 configurations) is checked on the model (sound and complete) and replayed on the real loader (quick: all single mismatches + a seeded sample of pairs, under three concrete epoch numberings incl. epoch 0; thorough: all); on success identity fields are read back and every CID is fetched; TLC judges each outcome.",
          "Current index formats only; Filecoin mode not exercised; gsfa directories are built by the real command with two capacity/poll literals shrunk in an overlay copy.",
          "DESIGN.md section 7, C10", "epochload"),
+ "C07": ("model_checking",
+         "TLC exhaustive check of GsfaPaging.tla / GsfaSlotWindow.tla (transcriptions of iterBeforeUntil, iterBeforeUntilSlot and the response assembly) which enumerate every case; real multi-epoch reader and real JSON-RPC handler; TLC trace judge (Trace_GsfaPaging.tla)",
+         "Every (batch layout per epoch, limit, before, until) for 2 epochs x <= 2-3 entries and 3 epochs x <= 1-3 entries, and every two-epoch history with slots x (limit, before, until), is checked on the transcriptions and executed on the real GsfaReaderMultiepoch over directories written by the real record writer; generated multi-epoch archives are indexed by the real `index gsfa` (batch size shrunk to 2) and every address is paged through the real handler with (limit, before, until) drawn from its history, each request repeated; TLC judges every result against Page / the slot window.",
+         "`before` not in the history yields an empty page, `until` not in it is ignored; slot-window results judged for soundness (exactness belongs to C19); thorough tier adds the negative configurations (map-order assembly, missing `before` comparison).",
+         "DESIGN.md section 7, C07", "gsfapaging"),
  "C15": ("model_checking",
          "TLC exhaustive check of PlusCal Accum.tla (every CAR layout x reader/flusher interleaving); TLC-simulated layouts+schedules forced on the real ObjectAccumulator through a gated io.Reader and gated callback; TLC trace judge (Trace_Accum.tla)",
          "Every layout of <= 4 (quick) / 6 (thorough) sections over {flush kind, kept, ignored} x body lengths at a varint boundary, with every interleaving of reader and flusher and queue capacities 1-2, is explored exhaustively (prefix/complete/no-aliasing/termination); TLC-generated layouts and schedules are forced on the real accumulator, plus free-running real-scale runs (1 500 groups, > 5 000 children, slow / random consumers, GOMAXPROCS 1/2/16); delivered groups with offsets are judged by TLC against the true offsets measured by the CAR writer.",
@@ -52,6 +57,8 @@ CHECKS = {
          "DESIGN.md section 7, C06", "gsfa"),
 }
 ENGINES = [
+ {"name": "gsfapaging", "path": "spec/GsfaPaging.tla", "serves_properties": ["C07", "C03"],
+  "kind_free_text": "TLA+ GsfaPagingAbs/GsfaPaging/GsfaSlotWindow + Trace_GsfaPaging; Go harness/pkg/gsfa/c07_test.go, harness/main/c07_test.go"},
  {"name": "epochload", "path": "spec/EpochLoad.tla", "serves_properties": ["C10"],
   "kind_free_text": "TLA+ EpochLoadAbs/EpochLoad + Trace_EpochLoad; Go harness/main/c10_test.go"},
  {"name": "rpc", "path": "spec/Rpc.tla", "serves_properties": ["C02", "C03"],
